@@ -11,12 +11,12 @@ Theorem C17_inputs_accepted_iff_nodup :
 Proof. exact inputs_accepted_iff_nodup. Qed.
 Print Assumptions C17_inputs_accepted_iff_nodup.
 
-(* masters: accepted configurations have at least one master, unique source names per master,
-   and the same set of source names in every master *)
+(* masters: a configuration is accepted exactly when it has at least one master, unique source names per
+   master, and the same set of source names in every master -- rejected for nothing but the listed defects *)
 Theorem C17_masters_accepted_spec :
   forall (G : Type) (geqb : G -> G -> bool), (forall a b, geqb a b = true <-> a = b) ->
-  forall ms : list (list G), masters_accepted G geqb ms = true ->
-    ms <> [] /\ Forall (@NoDup G) ms /\
-    forall m1 m2, In m1 ms -> In m2 ms -> forall x, In x m1 <-> In x m2.
-Proof. exact masters_accepted_spec. Qed.
+  forall ms : list (list G), masters_accepted G geqb ms = true <->
+    (ms <> [] /\ Forall (@NoDup G) ms /\
+     forall m1 m2, In m1 ms -> In m2 ms -> forall x, In x m1 <-> In x m2).
+Proof. exact masters_accepted_iff. Qed.
 Print Assumptions C17_masters_accepted_spec.
